@@ -495,3 +495,23 @@ M("C16", "twin-zdt1-order", "benchmark_pareto.py", "        return constant * g 
 M("C16", "twin-dtlz4-mapped", "benchmark_pareto.py", "        x = x.vector\n        scores = []\n        for i in range(0, m):\n            fi = 1.0\n            for j in range(0, m - i - 1):\n                fi *= cos(0.5 * x[j] ** alpha * pi)\n\n            if i > 0:\n                fi *= sin(x[m - i - 1] ** alpha * pi / 2.)", "        x = x.vector\n        xa = [xi ** alpha for xi in x[:m - 1]]\n        scores = []\n        for i in range(0, m):\n            fi = 1.0\n            for j in range(0, m - i - 1):\n                fi *= cos(0.5 * xa[j] * pi)\n\n            if i > 0:\n                fi *= sin(xa[m - i - 1] * pi / 2.)", "H")
 M("C17", "find-opt-criteria-before-index", "results.py", "        index = 0  # default - one parameter\n        min_l = []\n        if name:\n            index = self.goal_index(name)\n\n        criteria = None\n        if 'criteria' in self.problem.costs[index]:\n            criteria = self.problem.costs[index]['criteria']\n", "        index = 0  # default - one parameter\n        min_l = []\n        criteria = None\n        if 'criteria' in self.problem.costs[index]:\n            criteria = self.problem.costs[index]['criteria']\n        if name:\n            index = self.goal_index(name)\n")
 M("C17", "twin-find-opt-select", "results.py", "        if criteria == 'minimize' or criteria is None:\n            if len(self.problem.individuals) > 0:\n                min_l = [min(self.problem.individuals, key=lambda x: x.costs[index])]\n        else:\n            if len(self.problem.individuals) > 0:\n                min_l = [max(self.problem.individuals, key=lambda x: x.costs[index])]\n\n        # for population in self.problem.populations:\n        opt = min(min_l, key=lambda x: x.costs[index])\n        return opt\n", "        select = min if (criteria == 'minimize' or criteria is None) else max\n        return select(self.problem.individuals, key=lambda x: x.costs[index])\n", "H")
+
+# ---------------------------------------------------------------- C15
+M("C15", "sphere-optimum-doc", "benchmark_functions.py", "        self.name = 'Sphere function'\n\n        self.set_dimension(**kwargs)\n        self.parameters = self.generate_paramlist(self.dimension, lb=-5.12, ub=5.12)\n\n        self.global_optimum = 0.", "        self.name = 'Sphere function'\n\n        self.set_dimension(**kwargs)\n        self.parameters = self.generate_paramlist(self.dimension, lb=-5.12, ub=5.12)\n\n        self.global_optimum = 0.5")
+M("C15", "booth-coords", "benchmark_functions.py", "        self.global_optimum = 0.0\n        self.global_optimum_coords = [1., 3.]\n        # single objective problem\n        self.costs = [{'name': 'f_1', 'criteria': 'minimize'}]\n\n    def evaluate(self, x):\n        x = x.vector\n        return [(x[0] + 2 * x[1] - 7)", "        self.global_optimum = 0.0\n        self.global_optimum_coords = [3., 1.]\n        # single objective problem\n        self.costs = [{'name': 'f_1', 'criteria': 'minimize'}]\n\n    def evaluate(self, x):\n        x = x.vector\n        return [(x[0] + 2 * x[1] - 7)")
+M("C15", "booth-formula", "benchmark_functions.py", "return [(x[0] + 2 * x[1] - 7) ** 2 + (2 * x[0] + x[1] - 5) ** 2]", "return [(x[0] + 2 * x[1] - 7) ** 2 - (2 * x[0] + x[1] - 5) ** 2]")
+M("C15", "gramacy-box-zero", "benchmark_functions.py", "self.parameters = [{'name': 'x', 'bounds': [0.5, 2.5]}]", "self.parameters = [{'name': 'x', 'bounds': [0.0, 2.5]}]")
+M("C15", "rastrigin-sign", "benchmark_functions.py", "fitness += c ** 2 - (10 * np.cos(2 * np.pi * c))", "fitness += c ** 2 + (10 * np.cos(2 * np.pi * c))")
+M("C15", "ackley-sqrt-negative", "benchmark_functions.py", "return [-20.0 * np.exp(-0.2 * np.sqrt(firstSum / n)) - np.exp(secondSum / n) + 20.0 + np.e]", "return [-20.0 * np.exp(-0.2 * np.sqrt(firstSum / n - 1.0)) - np.exp(secondSum / n) + 20.0 + np.e]")
+M("C15", "griewank-offset", "benchmark_functions.py", "return [summa - produkt + 1.]", "return [summa - produkt]")
+M("C15", "synthetic2d-criteria", "benchmark_robust.py", "        self.robust_optimum = 1.0\n        self.robust_optimum_coords = [3.0, 1.0]\n        # single objective problem\n        self.costs = [{'name': 'f_1', 'criteria': 'maximize'}]", "        self.robust_optimum = 1.0\n        self.robust_optimum_coords = [3.0, 1.0]\n        # single objective problem\n        self.costs = [{'name': 'f_1', 'criteria': 'minimize'}]")
+M("C15", "synthetic1d-peak-shift", "benchmark_robust.py", "2. * exp(-(x - 2.75) ** 2. / 0.045)", "2. * exp(-(x - 2.65) ** 2. / 0.045)")
+M("C15", "synthetic5d-minimize-again", "benchmark_robust.py", "        self.robust_optimum_coords = [3.0, 1.0, 3.0, 2.0, 5.0]\n        # single objective problem\n        self.costs = [{'name': 'f_1', 'criteria': 'maximize'}]", "        self.robust_optimum_coords = [3.0, 1.0, 3.0, 2.0, 5.0]\n        # single objective problem\n        self.costs = [{'name': 'f_1', 'criteria': 'minimize'}]")
+M("C15", "michalewicz-optimum", "benchmark_functions.py", "            self.global_optimum = -1.8013\n", "            self.global_optimum = -1.7013\n")
+M("C15", "zakharov-two-costs", "benchmark_functions.py", "        return [f1 + f2 ** 2. + f3 ** 2.]", "        return [f1 + f2 ** 2. + f3 ** 2., f1]")
+M("C15", "alpine-float-method", "benchmark_functions.py", "            f1 += np.abs(c * np.sin(c) + 0.1 * c)\n        return [f1]", "            f1 += np.abs(c * np.sin(c) + 0.1 * c)\n        return [f1.item()]")
+M("C15", "xinsheyang2-wider-box", "benchmark_functions.py", "self.parameters = self.generate_paramlist(self.dimension, lb=-20.0, ub=20.0)", "self.parameters = self.generate_paramlist(self.dimension, lb=-20.0, ub=2000.0)", "H")
+M("C15", "perm-optimum-shift", "benchmark_functions.py", "self.global_optimum_coords = [1. / float(x + 1) for x in range(self.dimension)]\n\n        # single objective problem\n        self.costs = [{'name': 'f_1', 'criteria': 'minimize'}]\n\n    def evaluate(self, x):\n        b = 10", "self.global_optimum_coords = [1. / float(x + 2) for x in range(self.dimension)]\n\n        # single objective problem\n        self.costs = [{'name': 'f_1', 'criteria': 'minimize'}]\n\n    def evaluate(self, x):\n        b = 10")
+# twins
+M("C15", "twin-sphere-mult", "benchmark_functions.py", "        for c in x:\n            sum += c ** 2.0\n\n        return [sum]", "        for c in x:\n            sum += c * c\n\n        return [sum]", "H")
+M("C15", "twin-booth-expanded", "benchmark_functions.py", "return [(x[0] + 2 * x[1] - 7) ** 2 + (2 * x[0] + x[1] - 5) ** 2]", "a = x[0] + 2 * x[1] - 7\n        b = 2 * x[0] + x[1] - 5\n        return [a ** 2 + b ** 2]", "H")
